@@ -30,12 +30,40 @@ def coq_check(prop):
 
 
 def build_tree(case):
-    """Node objects in pre-order; sibling-name duplicates (outside Node's own invariant) are made by
-    renaming after attachment, which is how a user gets them too."""
-    from bigtree.node.node import Node
-
+    """Objects in pre-order.  cls "node": Node (sibling-name duplicates, outside Node's own invariant,
+    are made by renaming after attachment, which is how a user gets them too); "binary": BinaryNode
+    with the given left/right slots (an only child in the right slot leaves the left slot None);
+    "dag": DAGNode, tree-shaped, some nodes with an extra parent outside the searched part."""
+    cls = case.get("cls", "node")
     nodes = []
     stack = []      # nodes on the current root-to-node route
+    if cls == "binary":
+        from bigtree.node.binarynode import BinaryNode
+        for i, (d, name, attrs) in enumerate(case["nodes"]):
+            del stack[d:]
+            nd = BinaryNode(name, **dict(attrs))
+            if stack:
+                if case["slots"][i] == 0:
+                    stack[-1].left = nd
+                else:
+                    stack[-1].right = nd
+            nodes.append(nd)
+            stack.append(nd)
+        nodes[0].sep = case["sep"]
+        return nodes
+    if cls == "dag":
+        from bigtree.node.dagnode import DAGNode
+        outside = DAGNode("outside")
+        for i, (d, name, attrs) in enumerate(case["nodes"]):
+            del stack[d:]
+            parents = [stack[-1]] if stack else []
+            if i % 3 == 2:
+                parents = parents + [outside]
+            nd = DAGNode(name, parents=parents, **dict(attrs))
+            nodes.append(nd)
+            stack.append(nd)
+        return nodes
+    from bigtree.node.node import Node
     for i, (d, name, attrs) in enumerate(case["nodes"]):
         del stack[d:]
         parent = stack[-1] if stack else None
@@ -53,17 +81,51 @@ def build_tree(case):
     return nodes
 
 
-def run_impl(prop, case):
+_TRUTHY = [True, 1, "x", [0]]
+_FALSY = [False, 0, "", None]
+
+
+def _fresh(v):
+    """an equal but not identical object (defeats `is` where `==` is meant)"""
+    if isinstance(v, str) and len(v) > 1:
+        return "".join(list(v))
+    if isinstance(v, float):
+        return float(repr(v))
+    if isinstance(v, int) and not isinstance(v, bool) and abs(v) > 256:
+        return int(str(v))
+    return v
+
+
+def _snapshot(nodes, cls):
+    idx = {id(n): i for i, n in enumerate(nodes)}
+    out = []
+    for n in nodes:
+        kids = [None if c is None else idx.get(id(c), -1) for c in n.children]
+        if cls == "dag":
+            out.append((n.node_name, kids, sorted(idx.get(id(p), -1) for p in n.parents)))
+        else:
+            p = n.parent
+            out.append((n.node_name, kids, None if p is None else idx.get(id(p), -1), n.sep, n.depth))
+    return out
+
+
+def _call(case, nodes, idx):
     from bigtree.tree import search
 
-    nodes = build_tree(case)
-    idx = {id(n): i for i, n in enumerate(nodes)}
     start = nodes[case["start"]]
     q = case["q"]
     kind = q[0]
+    style = case.get("cstyle", "bool")
+    pos = case.get("pos", False)
 
     def cond(tab):
-        return lambda n: bool(tab[idx[id(n)]]) if idx.get(id(n), len(tab)) < len(tab) else False
+        def f(n):
+            i = idx.get(id(n), len(tab))
+            b = bool(tab[i]) if i < len(tab) else False
+            if style == "bool":
+                return b
+            return (_TRUTHY if b else _FALSY)[(i + len(tab)) % 4]   # truthy / falsy, not a bool
+        return f
 
     def num(x):
         if x is None:
@@ -74,13 +136,14 @@ def run_impl(prop, case):
 
     try:
         if kind == "findall":
-            r = search.findall(start, cond(q[1]), max_depth=q[2], min_count=q[3], max_count=q[4])
+            r = (search.findall(start, cond(q[1]), q[2], q[3], q[4]) if pos else
+                 search.findall(start, cond(q[1]), max_depth=q[2], min_count=q[3], max_count=q[4]))
         elif kind == "find":
-            r = search.find(start, cond(q[1]), max_depth=q[2])
+            r = search.find(start, cond(q[1]), q[2]) if pos else search.find(start, cond(q[1]), max_depth=q[2])
         elif kind == "find_name":
-            r = search.find_name(start, q[1], max_depth=q[2])
+            r = search.find_name(start, _fresh(q[1]), q[2]) if pos else search.find_name(start, _fresh(q[1]), max_depth=q[2])
         elif kind == "find_names":
-            r = search.find_names(start, q[1], max_depth=q[2])
+            r = search.find_names(start, _fresh(q[1]), q[2]) if pos else search.find_names(start, _fresh(q[1]), max_depth=q[2])
         elif kind == "find_path":
             r = search.find_path(start, q[1])
         elif kind == "find_paths":
@@ -90,17 +153,21 @@ def run_impl(prop, case):
         elif kind == "find_relative_path":
             r = search.find_relative_path(start, q[1])
         elif kind == "find_relative_paths":
-            r = search.find_relative_paths(start, q[1], min_count=q[2], max_count=q[3])
+            r = (search.find_relative_paths(start, q[1], q[2], q[3]) if pos else
+                 search.find_relative_paths(start, q[1], min_count=q[2], max_count=q[3]))
         elif kind == "find_attr":
-            r = search.find_attr(start, q[1], q[2], max_depth=q[3])
+            r = (search.find_attr(start, q[1], _fresh(q[2]), q[3]) if pos else
+                 search.find_attr(start, q[1], _fresh(q[2]), max_depth=q[3]))
         elif kind == "find_attrs":
-            r = search.find_attrs(start, q[1], q[2], max_depth=q[3])
+            r = (search.find_attrs(start, q[1], _fresh(q[2]), q[3]) if pos else
+                 search.find_attrs(start, q[1], _fresh(q[2]), max_depth=q[3]))
         elif kind == "find_children":
-            r = search.find_children(start, cond(q[1]), min_count=q[2], max_count=q[3])
+            r = (search.find_children(start, cond(q[1]), q[2], q[3]) if pos else
+                 search.find_children(start, cond(q[1]), min_count=q[2], max_count=q[3]))
         elif kind == "find_child":
             r = search.find_child(start, cond(q[1]))
         elif kind == "find_child_by_name":
-            r = search.find_child_by_name(start, q[1])
+            r = search.find_child_by_name(start, _fresh(q[1]))
         else:
             raise ValueError(kind)
     except Exception as e:  # noqa
@@ -108,6 +175,21 @@ def run_impl(prop, case):
     if kind in MULTI:
         return {"k": "nodes", "v": [num(x) for x in r]}
     return {"k": "node", "v": num(r)}
+
+
+def run_impl(prop, case):
+    nodes = build_tree(case)
+    cls = case.get("cls", "node")
+    idx = {id(n): i for i, n in enumerate(nodes)}
+    before = _snapshot(nodes, cls)
+    obs = _call(case, nodes, idx)
+    if _snapshot(nodes, cls) != before:
+        return {"_harness_error": "the search changed the tree it searched", "obs": obs}
+    again = _call(case, nodes, idx)              # a search has no memory: same call, same answer
+    if again != obs:
+        return {"_harness_error": "the same search on the same tree answered differently the second time",
+                "obs": obs, "second": again}
+    return obs
 
 
 MULTI = {"findall", "find_names", "find_paths", "find_relative_paths", "find_attrs", "find_children"}
@@ -128,6 +210,10 @@ def _cval(v):
         return f"VInt {cZ(v)}"
     if isinstance(v, str):
         return f"VStr {cstr(v)}"
+    if isinstance(v, float):
+        from fractions import Fraction
+        fr = Fraction(v)
+        return f"VFloat {cZ(fr.numerator)} {cZ(fr.denominator)}"
     raise TypeError(v)
 
 
@@ -192,13 +278,16 @@ NAME_POOLS = {
     "affix": ["a", "xa", "ab", "b", "bc", "abc", "c", "ca", "aa"],
     "special": ["a.b", "(", "+", "a b", "a'", "0", "a1", "10", "a-", "-a", "a|b", "a/b", "x\\y", "é", "..a"],
 }
-SEPS = ["/", "/", "/", "\\", "-", ".", "|"]
+SEPS = ["/", "/", "/", "\\", "-", ".", "|", "+", " ", ":"]
 SHAPES = ["wide", "deep", "mixed", "path", "star"]
-ATTR_VALUES = [1, 2, 3, 1, 2, "x", "y", None, True, 0]
+ATTR_VALUES = [1, 2, 3, 1, 2, "x", "y", None, True, 0, False, "", "xy", "xy", 1000, 1000, 1.0, 2.5, 0.0]
 MAXN = 11
 
 
-def gen_parents(rng, shape, n):
+BINARY_STAR = True    # '*' on BinaryNode trees with empty slots (repaired by fix 09acfdb, F11)
+
+
+def gen_parents(rng, shape, n, maxfan=6):
     """parent index of every node (creation order; children keep creation order)"""
     par = [None]
     depth = [0]
@@ -207,7 +296,7 @@ def gen_parents(rng, shape, n):
         if shape == "path":
             cands = [i - 1]
         elif shape == "star":
-            cands = [0] if fan[0] < 6 else [j for j in range(i) if fan[j] < 6]
+            cands = [0] if fan[0] < maxfan else [j for j in range(i) if fan[j] < maxfan]
         elif shape == "deep":
             cands = [i - 1] * 4 + list(range(i))
         elif shape == "wide":
@@ -215,7 +304,7 @@ def gen_parents(rng, shape, n):
             cands = hubs * 3 + list(range(i))
         else:
             cands = list(range(i))
-        cands = [j for j in cands if fan[j] < 6 and depth[j] < 7] or [j for j in range(i) if fan[j] < 6]
+        cands = [j for j in cands if fan[j] < maxfan and depth[j] < 7] or [j for j in range(i) if fan[j] < maxfan]
         p = rng.choice(cands)
         par.append(p)
         depth.append(depth[p] + 1)
@@ -267,8 +356,8 @@ class Shape:
         return out
 
 
-def gen_tree(rng, shape, pool_name, sep, n, dupsib=False):
-    par = gen_parents(rng, shape, n)
+def gen_tree(rng, shape, pool_name, sep, n, dupsib=False, maxfan=6):
+    par = gen_parents(rng, shape, n, maxfan)
     depths, par = preorder(par)
     pool = [x for x in NAME_POOLS[pool_name] if sep not in x and "*" not in x]
     names = []
@@ -385,7 +474,7 @@ def _full_path_query(rng, sh, sep, pool):
     return s
 
 
-def _relative_query(rng, sh, start, sep, pool):
+def _relative_query(rng, sh, start, sep, pool, star=True):
     if rng.random() < 0.12:
         s = _full_path_query(rng, sh, sep, pool)
         return s if s.startswith(sep) else sep + s
@@ -399,7 +488,7 @@ def _relative_query(rng, sh, start, sep, pool):
             comps.append("..")
             if sh.par[cur] is not None:
                 cur = sh.par[cur]
-        elif r < 0.58:
+        elif r < 0.58 and star:
             comps.append("*")
             if sh.kids[cur]:
                 cur = rng.choice(sh.kids[cur])
@@ -416,8 +505,10 @@ def _relative_query(rng, sh, start, sep, pool):
     return s
 
 
-def gen_query(rng, kind, sh, start, sep, pool, attrs):
+def gen_query(rng, kind, sh, start, sep, pool, attrs, star=True):
     n = len(sh.names)
+    if kind in ("find_path", "find_paths", "find_full_path") and rng.random() < 0.04:
+        return [kind, rng.choice(["", sep, sep + sep])]
     if kind == "findall":
         return [kind, _table(rng, n), _md(rng, sh, start), _count(rng), _count(rng)]
     if kind == "find":
@@ -434,9 +525,9 @@ def gen_query(rng, kind, sh, start, sep, pool, attrs):
     if kind == "find_full_path":
         return [kind, _full_path_query(rng, sh, sep, pool)]
     if kind == "find_relative_path":
-        return [kind, _relative_query(rng, sh, start, sep, pool)]
+        return [kind, _relative_query(rng, sh, start, sep, pool, star)]
     if kind == "find_relative_paths":
-        return [kind, _relative_query(rng, sh, start, sep, pool), _count(rng), _count(rng)]
+        return [kind, _relative_query(rng, sh, start, sep, pool, star), _count(rng), _count(rng)]
     if kind in ("find_attr", "find_attrs"):
         key = rng.choice(["age", "age", "age", "w", "q"])
         vals = [a[key] for a in attrs if key in a]
@@ -456,16 +547,23 @@ def gen_query(rng, kind, sh, start, sep, pool, attrs):
     raise ValueError(kind)
 
 
+CHILD_KINDS = ("find_children", "find_child", "find_child_by_name")
+
+
 def gen_case(rng, kind=None):
     shape = rng.choice(SHAPES)
     pool_name = rng.choice(list(NAME_POOLS))
     sep = rng.choice(SEPS)
     n = rng.randint(1, MAXN) if rng.random() < 0.15 else rng.randint(4, MAXN)
-    dupsib = rng.random() < 0.05
-    sh = gen_tree(rng, shape, pool_name, sep, n, dupsib)
-    attrs = gen_attrs(rng, n)
     kind = kind or rng.choice(KINDS)
-    if kind in ("find_children", "find_child", "find_child_by_name") and rng.random() < 0.8:
+    r = rng.random()
+    cls = "binary" if r < 0.15 else "dag" if (r < 0.40 and kind in CHILD_KINDS) else "node"
+    dupsib = rng.random() < (0.3 if cls == "dag" else 0.05)
+    if cls == "binary" and shape in ("star", "wide"):
+        shape = "mixed"
+    sh = gen_tree(rng, shape, pool_name, sep, n, dupsib, maxfan=2 if cls == "binary" else 6)
+    attrs = gen_attrs(rng, n)
+    if kind in CHILD_KINDS and rng.random() < 0.8:
         inner = [i for i in range(n) if sh.kids[i]]
         start = rng.choice(inner) if inner else 0
     elif rng.random() < 0.35:
@@ -473,10 +571,22 @@ def gen_case(rng, kind=None):
     else:
         start = rng.randrange(n)
     pool = [x for x in NAME_POOLS[pool_name] if sep not in x]
-    q = gen_query(rng, kind, sh, start, sep, pool, attrs)
+    q = gen_query(rng, kind, sh, start, sep, pool, attrs, star=(cls != "binary" or BINARY_STAR))
     case = {"sep": sep, "nodes": [[sh.depths[i], sh.names[i], attrs[i]] for i in range(n)],
-            "start": start, "q": q}
-    label = f"{kind}/{shape}/{pool_name}" + ("/dupsib" if dupsib else "")
+            "start": start, "q": q, "cls": cls,
+            "cstyle": rng.choice(["bool", "bool", "mixed"]), "pos": rng.random() < 0.4}
+    if cls == "binary":
+        slots = []
+        for i in range(n):
+            p = sh.par[i]
+            if p is None:
+                slots.append(0)
+            elif len(sh.kids[p]) == 2:
+                slots.append(sh.kids[p].index(i))
+            else:
+                slots.append(rng.choice([0, 1, 1]))
+        case["slots"] = slots
+    label = f"{kind}/{shape}/{pool_name}" + ("/dupsib" if dupsib else "") + ("" if cls == "node" else "/" + cls)
     return label, case
 
 
@@ -545,6 +655,14 @@ _AFX = [(0, "r", {}), (1, "a", {}), (2, "b", {}), (3, "a", {}), (3, "ab", {}), (
         (1, "ab", {}), (2, "a", {}), (2, "b", {}), (2, "c", {}), (1, "b", {})]
 
 
+def _b(q):
+    # r = BinaryNode("a"); r.right = BinaryNode("b")
+    c = _t("/", [(0, "a", {}), (1, "b", {})], 0, q)
+    c["cls"] = "binary"
+    c["slots"] = [0, 1]
+    return c
+
+
 def corpus(prop):
     T8 = [True] * 8
     T11 = [True] * 11
@@ -595,6 +713,11 @@ def corpus(prop):
         ("relative", _t("/", _AFX, 6, ["find_relative_paths", "*", 0, 2])),
         ("relative", _t("/", _AFX, 6, ["find_relative_path", "../*/c"])),
         ("relative", _t("/", _FIX, 1, ["find_relative_paths", "", 0, 0])),
+        # F11 (fixed 09acfdb): '*' on a BinaryNode with an empty left slot returned (None, b) / raised AttributeError
+        ("F11-binary-star", _b(["find_relative_paths", "*", 0, 0])),
+        ("F11-binary-star", _b(["find_relative_paths", "b/*", 0, 0])),
+        ("F11-binary-star", _b(["find_relative_paths", "*/b", 0, 0])),
+        ("F11-binary-star", _b(["find_relative_path", "*"])),
         # duplicate sibling names (made by renaming): the single-result contract inside the descent
         ("dupsib", _t("/", [(0, "r", {}), (1, "a", {}), (2, "b", {}), (1, "a", {})], 0, ["find_full_path", "/r/a/b"])),
         ("dupsib", _t("/", [(0, "r", {}), (1, "a", {}), (2, "b", {}), (1, "a", {})], 0, ["find_relative_paths", "a", 0, 0])),
@@ -611,11 +734,15 @@ def nontrivial(prop, case, obs):
 
 
 def rule(prop):
-    return ("one search call on a Node tree of 1-11 nodes (shapes wide/deep/mixed/path/star; name pools distinct/"
-            "repeated/affix/special; separators / \\ - . |; 5% with duplicate sibling names made by renaming), every "
-            "start node, 14 query kinds (condition tables, names, path suffixes/infixes/near misses, full paths, "
-            "relative paths over . .. * names, attributes, counts, max_depth around the start depth); "
-            "non-trivial = tree of >= 3 nodes; distinct by canonical JSON hash")
+    return ("one search call (made twice; the tree is snapshotted before/after: links, names, sep, depth) on a tree of 1-11 "
+            "nodes; classes Node (75%), BinaryNode with empty left/right slots (15%, all functions, no '*'), DAGNode (children "
+            "functions only); shapes wide/deep/mixed/path/star; name pools distinct/repeated/affix/special; separators "
+            "/ \\ - . | + space : (children built with a different own _sep than the root); 5% duplicate sibling names made "
+            "by renaming (30% for DAG); every start node; 14 query kinds (condition tables returning bools or truthy/falsy "
+            "non-bools, names, path suffixes/infixes/near misses/empty, full paths, relative paths over . .. * names, "
+            "attributes None/int/bool/str/''/float/large int passed as equal-but-not-identical objects, counts 0-4, "
+            "max_depth around the start depth); arguments positional (40%) or by keyword; non-trivial = tree of >= 3 nodes; "
+            "distinct by canonical JSON hash")
 
 
 def sample(prop, case, obs):
@@ -635,6 +762,8 @@ def _drop_node(case, i):
         return None                       # not a leaf
     c = dict(case)
     c["nodes"] = nodes[:i] + nodes[i + 1:]
+    if "slots" in case:
+        c["slots"] = case["slots"][:i] + case["slots"][i + 1:]
     c["start"] = case["start"] - (1 if i < case["start"] else 0)
     q = list(case["q"])
     if q[0] in ("findall", "find", "find_children", "find_child"):
@@ -707,7 +836,14 @@ def partial_clauses(prop):
             "separators are known finding K3 (Example C09_multichar_sep_refuted)",
             "find_full_path 'found iff the full path exists' is proved under sibling-name uniqueness and separator-free, "
             "non-empty names (as designed); an absolute path given to find_relative_paths is not subject to "
-            "min_count/max_count and a missing one yields (None,) - the specification accepts any expression of 'no node'"]
+            "min_count/max_count and a missing one yields (None,) - prop_C09 accepts any expression of 'no node' there "
+            "(the model comparison is exact everywhere, so a change in these branches is still reported, as a broken correspondence)",
+            "accepted blind spots of the correspondence (never generated): names that are not str (Node(1): find_full_path('/1/2') raises ValueError while "
+            "find_paths('2') finds the node); conditions that raise; attribute values that are lists/dicts/NaN; attribute names "
+            "that are class properties (name, depth, path_name, ...); negative max_depth/min_count/max_count; the empty separator, "
+            "the separator '*', multi-character separators other than the K3 witness; names containing the separator or '*'; "
+            "DAGNode arguments to anything but find_children/find_child/find_child_by_name; trees beyond 11 nodes / fan-out 6 / "
+            "depth 8; exception messages and the container type (tuple/list) of multi-results are not compared"]
 
 
 def assumptions(prop):
